@@ -58,7 +58,13 @@ func NewEnv(tier string) (*Env, error) {
 }
 
 // Close removes the scratch directory.
-func (e *Env) Close() { os.RemoveAll(e.Scratch) }
+func (e *Env) Close() {
+	if os.Getenv("VERIF_KEEP") != "" {
+		fmt.Fprintln(os.Stderr, "keeping scratch", e.Scratch)
+		return
+	}
+	os.RemoveAll(e.Scratch)
+}
 
 func goEnv() []string {
 	env := os.Environ()
